@@ -394,7 +394,10 @@ pub fn explore(prop: Prop, thorough: bool, result_path: &str) {
         let (sheet, opts) = (subs[k].gen)(i - starts[k]);
         rep.transitions += 1;
         match run_one(&sheet, &opts) {
-            Ok(None) => rep.count("skipped:not-the-intended-token-sequence", 1),
+            Ok(None) => {
+                rep.count("skipped:not-the-intended-token-sequence", 1);
+                rep.count(&format!("skipped-in:{}", subs[k].name.split(':').next().unwrap()), 1);
+            }
             Err(m) => rep.engine_error(if matches!(prop, Prop::C08) { "C08" } else { "C09" }, m),
             Ok(Some((findings, output))) => {
                 rep.states += 1;
@@ -467,7 +470,10 @@ pub fn replay(prop: Prop, v: &Value) -> Value {
     let run = |_: ()| -> Vec<String> {
         match run_one(&sheet, &opts) {
             Ok(Some((f, _))) => f.into_iter().filter(|f| f.prop == prop).map(|f| format!("{}|{}: {}", f.kind, f.ctx, f.detail)).collect(),
-            Ok(None) => vec![],
+            Ok(None) => {
+                eprintln!("note: the sheet is skipped by the engine (it does not tokenise piece by piece as intended)");
+                vec![]
+            }
             Err(m) => vec![format!("panic: {}", m)],
         }
     };
